@@ -20,8 +20,15 @@ type ChannelListener struct {
 	stop    context.CancelFunc
 }
 
-func (ln *ChannelListener) SendToChannel(conn net.Conn) {
-	ln.channel <- conn
+// SendToChannel hands conn over to Accept. It reports false, without handing
+// the connection over, once the listener is closed: nobody accepts any more.
+func (ln *ChannelListener) SendToChannel(conn net.Conn) bool {
+	select {
+	case ln.channel <- conn:
+		return true
+	case <-ln.context.Done():
+		return false
+	}
 }
 
 func (ln *ChannelListener) Accept() (net.Conn, error) {
